@@ -20,9 +20,9 @@ func VH_C04_Text() {
 }
 
 var vhC04Tags = []struct {
-	src         string
+	src          string
 	trimL, trimR bool
-	val         int // 0: prints x, 1: prints nothing, 2: prints "y" if x != "" (x is 1 byte: always)
+	val          int // 0: prints x, 1: prints nothing, 2: prints "y" if x != "" (x is 1 byte: always)
 }{
 	{"{{x}}", false, false, 0},
 	{"{{ x }}", false, false, 0},
@@ -152,4 +152,116 @@ func VH_C04_Verbatim() {
 	symAssert(err2 == nil && out2 == out, "verbatim-context-independent")
 	symAssert(!called, "verbatim-not-evaluated")
 	symAssert(out == v, "verbatim-exact")
+}
+
+// ---- C04.placement: verbatim and comments are inert wherever they stand --------------------------
+// The body is rendered once at top level; the same verbatim block placed inside every construct that
+// has a body of its own (if, for, block, macro with a parameter named like the variable in the body,
+// included template, overriding block of a child template, apply, nested macro call through import)
+// gives the same bytes (upper-cased under `apply upper`), whatever the context holds, and calls nothing.
+
+var vhC04Cores = []string{"{{ x }}", "{{ spy() }}", "{{ x|upper }}", "{# c #}", "x", "{{x}}{{ y }}", "#}{{ x }}"}
+
+type vhC04Place struct {
+	name     string
+	pre, suf string
+	lib      int // 0: none, 1: body is the included template, 2: child of base, 3: imported macro
+	upper    bool
+}
+
+var vhC04Places = []vhC04Place{
+	{"if", "{% if 1 %}", "{% endif %}", 0, false},
+	{"else", "{% if 0 %}{% else %}", "{% endif %}", 0, false},
+	{"for", "{% for i in [1] %}", "{% endfor %}", 0, false},
+	{"block", "{% block b %}", "{% endblock %}", 0, false},
+	{"macro", "{% macro m(x, y) %}", "{% endmacro %}{{ m('ARG', 'ARG2') }}", 0, false},
+	{"macro-self", "{% macro m(x, y) %}", "{% endmacro %}{{ _self.m('ARG', 'ARG2') }}", 0, false},
+	{"include", "", "", 1, false},
+	{"child-block", "{% extends 'base' %}{% block b %}", "{% endblock %}", 2, false},
+	{"import", "{% macro m(x, y) %}", "{% endmacro %}", 3, false},
+	{"apply", "{% apply upper %}", "{% endapply %}", 0, true},
+	{"for-else", "{% for i in [] %}{% else %}", "{% endfor %}", 0, false},
+}
+
+func vhUpperASCII(s string) string {
+	b := []byte(s)
+	for i, c := range b {
+		if c >= 'a' && c <= 'z' {
+			b[i] = c - 32
+		}
+	}
+	return string(b)
+}
+
+func VH_C04_Placement() {
+	core := vhC04Cores[symChoice(len(vhC04Cores))]
+	pre := symStringIn(symChoice(2), "a {")
+	post := symStringIn(symChoice(2), "a }")
+	body := pre + core + post
+	kind := symChoice(2) // 0: verbatim block, 1: comment
+	p := vhC04Places[symChoice(len(vhC04Places))]
+	symTag("place:" + p.name + " core:" + core)
+	var unit string
+	if kind == 0 {
+		unit = "{% verbatim %}" + body + "{% endverbatim %}"
+	} else {
+		symTag("comment")
+		if core == "{# c #}" || core == "#}{{ x }}" {
+			symAssume(false) // a comment ends at the first #}
+		}
+		if len(post) > 0 && post[0] == '}' {
+			body += " "
+		}
+		unit = "{#" + body + "#}"
+	}
+	called := false
+	mk := func() *Engine {
+		e := New()
+		e.AddFunction("spy", func(a ...interface{}) (interface{}, error) { called = true; return "S", nil })
+		e.RegisterString("base", "[{% block b %}{% endblock %}]")
+		return e
+	}
+	ctx := map[string]interface{}{"x": "LEAK", "y": "LEAK2"}
+	// reference: the unit alone, at top level
+	e0 := mk()
+	if e0.RegisterString("t", "<"+unit+">") != nil {
+		symAssume(false) // bodies the parser rejects at top level are C04.verbatim's subject
+	}
+	ref, rerr := e0.Render("t", ctx)
+	if rerr != nil {
+		symAssume(false)
+	}
+	if kind == 1 {
+		symAssert(ref == "<>", "comment-contributes-nothing")
+	}
+	e := mk()
+	var err error
+	want := ref
+	switch p.lib {
+	case 0:
+		err = e.RegisterString("t", "<"+p.pre+unit+p.suf+">")
+	case 1:
+		e.RegisterString("inc", unit)
+		err = e.RegisterString("t", "<{% include 'inc' %}>")
+	case 2:
+		err = e.RegisterString("t", p.pre+"<"+unit+">"+p.suf)
+		want = "[" + ref + "]"
+	case 3:
+		e.RegisterString("lib", p.pre+unit+p.suf)
+		err = e.RegisterString("t", "{% import 'lib' as l %}<{{ l.m('ARG', 'ARG2') }}>")
+	}
+	if p.upper {
+		want = vhUpperASCII(ref)
+	}
+	symAssert(err == nil, "placed-parses")
+	if err != nil {
+		return
+	}
+	out, err := e.Render("t", ctx)
+	symCover("rendered")
+	symAssert(err == nil, "placed-renders")
+	symAssert(out == want, "same-bytes-as-top-level")
+	out2, err2 := e.Render("t", map[string]interface{}{"x": 7, "y": nil, "spy": "Q"})
+	symAssert(err2 == nil && out2 == out, "placed-context-independent")
+	symAssert(!called, "placed-not-evaluated")
 }
